@@ -2,6 +2,7 @@ package checks
 
 import (
 	"bufio"
+	"bytes"
 	"encoding/json"
 	"fmt"
 	"os"
@@ -40,6 +41,9 @@ type wireCase struct {
 	Inputs json.RawMessage   `json:"inputs,omitempty"`
 	PredB  []string          `json:"predb,omitempty"`
 	PredS  []string          `json:"preds,omitempty"`
+	Seq    json.RawMessage   `json:"seq,omitempty"`
+	SeqEnc json.RawMessage   `json:"seqenc,omitempty"`
+	Scheds json.RawMessage   `json:"scheds,omitempty"`
 	Extra  map[string]json.RawMessage `json:"-"`
 	Pid    string            `json:"pid"`
 }
@@ -259,6 +263,11 @@ func RunWire(c *Ctx, sp *WireSpec) (int, error) {
 		if cs.Inputs != nil {
 			j["inputs"] = cs.Inputs
 		}
+		if sp.Op == "stream" {
+			j["seq"] = cs.Seq
+			j["seqenc"] = cs.SeqEnc
+			j["scheds"] = cs.Scheds
+		}
 		if sp.Op == "corrupt" {
 			// inputs on which the as-is model predicts a runaway are executed only as a sample
 			mk := func(pred []string, budget map[string]int) []bool {
@@ -332,6 +341,21 @@ func RunWire(c *Ctx, sp *WireSpec) (int, error) {
 	}
 	_ = evw
 	evf.Close()
+	// events of one case stay together and in order (each case is run by one worker)
+	sort.SliceStable(eventLines, func(i, j int) bool { return cidOf(eventLines[i]) < cidOf(eventLines[j]) })
+	var streamLines [][]byte
+	if sp.Op == "stream" {
+		kept := eventLines[:0]
+		for _, ln := range eventLines {
+			if bytes.HasPrefix(ln, []byte(`{"ev":"sbegin"`)) || bytes.HasPrefix(ln, []byte(`{"ev":"sread"`)) || bytes.HasPrefix(ln, []byte(`{"ev":"sret"`)) {
+				streamLines = append(streamLines, ln)
+			} else {
+				kept = append(kept, ln)
+			}
+		}
+		eventLines = kept
+		nEvents = len(eventLines)
+	}
 	if nEvents == 0 {
 		return 2, infra("the worker produced no observations")
 	}
@@ -437,6 +461,119 @@ func RunWire(c *Ctx, sp *WireSpec) (int, error) {
 	if total["ok"]+total["na"]+total["known"]+total["viol"] != nEvents {
 		return 2, infra("judge consumed %d of %d events", total["ok"]+total["na"]+total["known"]+total["viol"], nEvents)
 	}
+	// 4b. C05: the design model under all fragmentations, and the read-level traces against StreamAbs
+	streamCov := map[string]interface{}{}
+	if sp.Op == "stream" {
+		maxSid := 135
+		mc := &tlc.Run{SpecDir: specDir, Scratch: filepath.Join(c.Work, "streammc"), Module: "StreamCodec", Workers: 16, Timeout: 20 * time.Minute,
+			Cfg: fmt.Sprintf("CONSTANTS\n  Tier = %q\n  Seed = %d\n  MaxSid = %d\nSPECIFICATION Spec\nINVARIANTS NoOverAsk ExactConsumption FaultSurfaces\nPROPERTIES ReturnAtEnd RefinesAbs Terminates\nCHECK_DEADLOCK FALSE\n", c.Tier, c.Seed, maxSid)}
+		mr, err := mc.Exec()
+		if err != nil {
+			return 2, infra("StreamCodec model check: %v", err)
+		}
+		if mr.Violated != "" {
+			return 2, infra("StreamCodec.tla violates %s on the ideal design (spec bug):\n%s", mr.Violated, strings.Join(mr.Tail, "\n"))
+		}
+		states += mr.Distinct
+		transitions += mr.Generated
+		streamCov["streamcodec_model_states"] = mr.Distinct
+		streamCov["streamcodec_properties"] = []string{"NoOverAsk", "ExactConsumption", "FaultSurfaces", "ReturnAtEnd", "RefinesAbs (StreamAbs)", "Terminates (WF)"}
+		// read-level traces
+		nsh := 8
+		per := (len(streamLines) + nsh - 1) / nsh
+		type sres struct {
+			res  *tlc.Result
+			bad  []json.RawMessage
+			cnt  map[string]int
+			err  error
+		}
+		srs := make([]sres, nsh)
+		var swg sync.WaitGroup
+		lo := 0
+		for sh := 0; sh < nsh && lo < len(streamLines); sh++ {
+			hi := lo + per
+			if hi > len(streamLines) {
+				hi = len(streamLines)
+			}
+			// extend to the end of the stream in progress
+			for hi < len(streamLines) && !bytes.HasPrefix(streamLines[hi], []byte(`{"ev":"sbegin"`)) {
+				hi++
+			}
+			swg.Add(1)
+			go func(sh, lo, hi int) {
+				defer swg.Done()
+				dir := filepath.Join(c.Work, fmt.Sprintf("sjudge%d", sh))
+				_ = os.MkdirAll(dir, 0o755)
+				f, err := os.Create(filepath.Join(dir, "sevents.ndjson"))
+				if err != nil {
+					srs[sh].err = err
+					return
+				}
+				w := bufio.NewWriter(f)
+				for _, ln := range streamLines[lo:hi] {
+					w.Write(ln)
+					w.WriteByte('\n')
+				}
+				w.Flush()
+				f.Close()
+				r := &tlc.Run{SpecDir: specDir, Scratch: dir, Module: "Trace_Stream", Workers: 1, Timeout: 20 * time.Minute,
+					Cfg: "SPECIFICATION Spec\nINVARIANT Done\nPOSTCONDITION TraceAccepted\nCHECK_DEADLOCK FALSE\n",
+					OnLine: func(tag, js string) {
+						switch tag {
+						case "SV":
+							srs[sh].bad = append(srs[sh].bad, json.RawMessage(js))
+						case "SCOUNTS":
+							m := map[string]int{}
+							_ = json.Unmarshal([]byte(js), &m)
+							srs[sh].cnt = m
+						}
+					}}
+				res, err := r.Exec()
+				srs[sh].res = res
+				srs[sh].err = err
+				if err == nil && res.Violated != "" {
+					srs[sh].err = fmt.Errorf("Trace_Stream did not consume the trace: %s\n%s", res.Violated, strings.Join(res.Tail, "\n"))
+				}
+				if err == nil && srs[sh].cnt == nil {
+					srs[sh].err = fmt.Errorf("Trace_Stream printed no counts\n%s", strings.Join(res.Tail, "\n"))
+				}
+			}(sh, lo, hi)
+			lo = hi
+		}
+		swg.Wait()
+		nStreams, nBadStreams, nSEvents := 0, 0, 0
+		for sh := range srs {
+			if srs[sh].err != nil {
+				return 2, infra("stream trace shard %d: %v", sh, srs[sh].err)
+			}
+			if srs[sh].res == nil {
+				continue
+			}
+			states += srs[sh].res.Distinct
+			transitions += srs[sh].res.Generated
+			nStreams += srs[sh].cnt["streams"]
+			nBadStreams += srs[sh].cnt["bad"]
+			nSEvents += srs[sh].cnt["events"]
+			for _, b := range srs[sh].bad {
+				var sv struct {
+					Cid int `json:"cid"`
+				}
+				_ = json.Unmarshal(b, &sv)
+				cs := run.cases[sv.Cid-1]
+				s := run.schemas[bySid[cs.Sid]]
+				c.Violation(fmt.Sprintf("read-level trace of DecodeBebop is not a behaviour of StreamAbs (reads beyond the record, or asks when the record is exhausted, or returns early) [shape %s in %s]", s.Tag, s.Ctx),
+					map[string]interface{}{"kind": "wire", "op": sp.Op, "judge": sp.JudgeProp, "schema_text": plans[cs.Pid].Text, "defs": s.Defs, "opts": cs.Opts,
+						"root": cs.Root, "v": cs.V, "ref": cs.Enc, "seq": cs.Seq, "seqenc": cs.SeqEnc, "scheds": cs.Scheds, "rejected_event": b})
+			}
+		}
+		if nSEvents != len(streamLines) {
+			return 2, infra("stream trace validation consumed %d of %d events", nSEvents, len(streamLines))
+		}
+		streamCov["read_level_streams_validated"] = nStreams
+		streamCov["read_level_events"] = nSEvents
+		streamCov["read_level_streams_rejected"] = nBadStreams
+		total["ok"] += nStreams - nBadStreams
+	}
 	// 5. verdicts
 	seenViol := map[string]bool{}
 	whyCount := map[string]int{}
@@ -518,6 +655,9 @@ func RunWire(c *Ctx, sp *WireSpec) (int, error) {
 		"exhaustive":                    false,
 		"phase_seconds":                 map[string]float64{"gen_tlc": gr.Elapsed.Seconds(), "generate_build": buildSecs, "execute": execSecs, "judge_tlc": judgeSecs},
 	}
+	for k, v := range streamCov {
+		cov[k] = v
+	}
 	return c.Finish(sp.Level, cov, sp.Assume), nil
 }
 
@@ -529,4 +669,19 @@ func firstEventOf(lines [][]byte, cid int) []byte {
 		}
 	}
 	return []byte("null")
+}
+
+func cidOf(line []byte) int {
+	i := bytes.Index(line, []byte(`"cid":`))
+	if i < 0 {
+		return 0
+	}
+	n := 0
+	for _, ch := range line[i+6:] {
+		if ch < '0' || ch > '9' {
+			break
+		}
+		n = n*10 + int(ch-'0')
+	}
+	return n
 }
